@@ -28,7 +28,6 @@ CLASS_FINDING = {
     'pnpm-catalog-anywhere': 'C04-pnpm-catalog-key-anywhere',
     'gha-keys-anywhere': 'C04-gha-steps-or-uses-key-anywhere',
     'cargo-dotted-path': 'C04-cargo-dotted-path-with-version',
-    'toml-dotted-blanks': 'C04-toml-dotted-key-blanks',
 }
 
 # fixed documents that re-observe listed findings which the generators do not draw: (format, text, class, what the document declares)
@@ -37,7 +36,6 @@ FINDING_CORPUS = [
     ('github_actions', 'jobs:\n  b:\n    steps:\n      - uses: actions/checkout@v4\n        with:\n          uses: a/b@v1\n', 'gha-keys-anywhere', [('actions/checkout', 'v4')]),
     ('github_actions', 'jobs:\n  steps:\n    runs-on: x\n    uses: c/d@v2\n', 'gha-keys-anywhere', []),
     ('cargo_toml', '[dependencies]\nfoo.path = "../foo"\nfoo.version = "1.2.3"\n', 'cargo-dotted-path', []),
-    ('cargo_toml', '[dependencies]\nserde . version = "1.0"\n', 'toml-dotted-blanks', [('serde', '1.0')]),
 ]
 
 
@@ -107,7 +105,7 @@ def set_oracle(rep, doc, pkgs):
         else:
             unexplained.append(('declared but not checked', t))
     nonreg = doc.meta.get('nonregistry', [])
-    doc_level = doc_classes & {'pnpm-catalog-anywhere', 'gha-keys-anywhere', 'cargo-dotted-path', 'toml-dotted-blanks'}
+    doc_level = doc_classes & {'pnpm-catalog-anywhere', 'gha-keys-anywhere', 'cargo-dotted-path'}
     for t in extra.elements():
         ok = False
         if doc_level:
